@@ -29,6 +29,8 @@ REMOTE = {
     "remote-callback": "import sys\ngot = []\nem = channel.gateway.execmodel\nev = em.Event()\ndef cb(x):\n    got.append(x)\n    if x == 'last':\n        ev.set()\nc = channel.receive()\nc.setcallback(cb)\nchannel.send('ready')\nev.wait()\nchannel.send(got)",
     "close-remote": "channel.send('bye')",
     "status": "channel.receive()",
+    # the worker process is lost in the middle of a conversation (a second channel is open as well)
+    "peer-dies": "import os\nchannel.send('alive')\nchannel.receive()\nos.kill(os.getpid(), 9)",
 }
 
 
@@ -115,6 +117,22 @@ def script(name, gw, T, size):
         T.append(("status", st.numexecuting, st.execmodel))
         ch.send(None)
         ch.waitclose(60)
+    elif name == "peer-dies":
+        other = gw.remote_exec("channel.send('other')\nchannel.receive()")
+        ch = gw.remote_exec(REMOTE["peer-dies"])
+        T.append(("first", ch.receive(timeout=60), other.receive(timeout=60)))
+        ch.send("die")
+        for label, fn in (("receive", lambda: ch.receive(timeout=60)), ("waitclose", lambda: ch.waitclose(60)), ("other-receive", lambda: other.receive(timeout=60)), ("other-waitclose", lambda: other.waitclose(60))):
+            try:
+                T.append((label, "returned", repr(fn())))
+            except BaseException as e:  # noqa: BLE001
+                T.append((label, type(e).__name__))
+        em.sleep(0.5)
+        try:
+            gw.remote_exec("pass")
+            T.append(("after", "accepted"))
+        except OSError:
+            T.append(("after", "OSError"))
 
 
 PROGRAMS = list(REMOTE)
@@ -355,6 +373,8 @@ def run(tier: str, only=None) -> int:
                     name = f"eq/{prog}:{size}:{tr}:{be}"
                     if only and only not in name:
                         continue
+                    if prog == "peer-dies" and be == "main_thread_only":
+                        continue  # needs two concurrently running bodies
                     if tier == "quick" and be == "gevent" and (tr != "popen" or size != 1):
                         continue
                     if tier == "quick" and be == "main_thread_only" and size != 1:
@@ -394,6 +414,8 @@ def run(tier: str, only=None) -> int:
                     continue
                 for tr in ("popen", "python", "socket", "via"):
                     for model in ("thread", "main_thread_only") + (("gevent",) if tier == "thorough" else ()):
+                        if prog == "peer-dies" and model == "main_thread_only":
+                            continue
                         if tier == "quick" and model == "main_thread_only" and size != rsizes[0]:
                             continue
                         if tier == "quick" and size > (1 << 20) and prog != "echo":
